@@ -411,8 +411,11 @@ pub fn run_case(ctx: &Ctx, s: &SaveState, rx: Receiver, verbose: bool) -> u64 {
     }
     // ---- lock-step continuation (only meaningful when the static state was restored)
     if d.is_empty() && ram_ok && pc_judged {
-        if rx == Receiver::AfterEi {
-            // INT active at the very first boundary: a stale EI latch would hold the interrupt off
+        if rx == Receiver::AfterEi && !s.halted {
+            // INT active at the very first boundary: a stale EI latch would hold the interrupt off.
+            // (Not for halted savers: SNA cannot carry HALT, the file holds PC on the HALT opcode, so an
+            // interrupt accepted before the HALT is re-executed returns onto the HALT where the
+            // original returns behind it - a limit of the format, not of the emulator.)
             twin.verif_set_frame_clocks(4);
             target.verif_set_frame_clocks(4);
         }
